@@ -145,8 +145,12 @@ def lean_str(s):
             out.append("\\r")
         elif 32 <= ord(ch) < 127:
             out.append(ch)
+        elif ord(ch) < 256:
+            out.append("\\x%02x" % ord(ch))
+        elif ord(ch) < 0x10000:
+            out.append("\\u%04x" % ord(ch))
         else:
-            out.append("\\u{%x}" % ord(ch))
+            out.append(ch)
     out.append('"')
     return "".join(out)
 
